@@ -149,3 +149,20 @@ func findRegion(calls []rcall, pred func(ssa.CallInstruction) bool) []rcall {
 	}
 	return out
 }
+
+// errorReturnedUp: the error of the located call is returned by its function and by every helper call site above it.
+func (c *Ctx) errorReturnedUp(rc rcall) bool {
+	call, ok := rc.call.(*ssa.Call)
+	if !ok || !c.errorReturned(call) {
+		return false
+	}
+	for _, s := range rc.chain {
+		sc, ok := s.(*ssa.Call)
+		if !ok || !c.errorReturned(sc) {
+			return false
+		}
+	}
+	return true
+}
+
+func (rc rcall) li() linstr { return linstr{rc.call, rc.chain} }
